@@ -66,6 +66,7 @@ POOL_XSD = '''<xs:schema xmlns:xs="http://www.w3.org/2001/XMLSchema" targetNames
      <xs:unique name="iu"><xs:selector xpath="t:k"/><xs:field xpath="."/></xs:unique>
     </xs:element>
     <xs:element name="ref" type="xs:int" minOccurs="0" maxOccurs="unbounded"/>
+    <xs:element ref="t:other" minOccurs="0" maxOccurs="2"/>
     <xs:any namespace="##other" processContents="lax" minOccurs="0" maxOccurs="2"/>
    </xs:sequence>
    <xs:attribute name="v" type="xs:string" fixed="1"/>
@@ -87,6 +88,8 @@ POOL_XSD = '''<xs:schema xmlns:xs="http://www.w3.org/2001/XMLSchema" targetNames
  </xs:extension></xs:complexContent></xs:complexType>
  <xs:simpleType name="Small"><xs:restriction base="xs:int"><xs:maxInclusive value="9"/></xs:restriction></xs:simpleType>
  <xs:element name="other" type="t:Small"/>
+ <xs:element name="sub" type="t:Small" substitutionGroup="t:other"/>
+ <xs:element name="sub2" type="t:Small" substitutionGroup="t:sub"/>
 </xs:schema>'''
 
 
@@ -107,6 +110,8 @@ POOL_DOCS = [
     doc('<t:item id="1"/>', '', '', v='2'),                                                           # fixed value
     doc('<t:item id="1" xsi:type="t:Nope"/>'),                                                        # unknown xsi:type
     doc('<t:item id="3" xsi:type="t:Ext"><t:a>4</t:a><t:k>q</t:k></t:item>', '<t:ref>3</t:ref>', '<t:other>5</t:other>'),
+    doc('<t:item id="1"/>', '', '<t:sub>4</t:sub><t:sub2>5</t:sub2>'),                                # substitution-group members
+    doc('<t:item id="1"/>', '', '<t:sub>40</t:sub>'),                                                 # member with a facet error
 ]
 OPS = ['iter_errors', 'decode', 'is_valid']
 
@@ -133,6 +138,16 @@ def globals_of(schema: Any) -> list:
                   if not c.name.startswith('{http://www.w3.org/'))
 
 
+def build_state(schema: Any) -> list:
+    """what a thread can see of the built state right after `build()` returned to it: the global
+    components, the substitution groups attached to the global elements, the build flags"""
+    out = []
+    for name, e in sorted(schema.maps.elements.items()):
+        if not name.startswith('{http://www.w3.org/'):
+            out.append([name, sorted(getattr(e, 'substitutes', ()) or ()), type(e.type).__name__])
+    return [out, bool(schema.built), len(list(schema.maps.iter_globals()))]
+
+
 def fresh(xsd: str, build: bool) -> Any:
     import xmlschema
     return xmlschema.XMLSchema(xsd, build=build)
@@ -149,6 +164,7 @@ class Events:
     installed = False
     orig: Any = None
     mutex = threading.Lock()
+    on_built: Any = None     # callback(thread) invoked right after a logged write of `_built = True`
 
     @classmethod
     def tid(cls) -> int:
@@ -181,6 +197,9 @@ class Events:
                     with cls.mutex:
                         cls.log.append([t, 'write', bool(v)])
                         d.__set__(self, v)
+                    cb = cls.on_built
+                    if v and cb is not None:
+                        cb(t)
                     return
             d.__set__(self, v)
         XsdGlobals._built = property(get, set_)
@@ -337,7 +356,7 @@ def run_threads(schema: Any, jobs: list[list[tuple[str, str]]], sched: Optional[
             if build_first:
                 try:
                     schema.build()
-                    out.append(['build', 'ok'])
+                    out.append(['build', 'ok', build_state(schema)])
                 except Exception as e:   # noqa
                     out.append(['build', 'raised', type(e).__name__, str(e)[:200]])
             for op, xml in jobs[t]:
@@ -375,6 +394,7 @@ class Baseline:
         self.xsd = xsd
         self.schema = fresh(xsd, True)
         self.globals = globals_of(self.schema)
+        self.state = build_state(self.schema)
         self.memo: dict = {}
 
     def result(self, op: str, xml: str) -> Any:
@@ -402,8 +422,11 @@ def judge(ctx: Ctx, case: dict, base: Baseline, schema: Any, jobs: list, results
         r = list(res)
         if build_first:
             b = r.pop(0)
-            if b != ['build', 'ok']:
+            if b[:2] != ['build', 'ok']:
                 fail('schema.build() fails in a thread', {'thread': t, 'result': b})
+            elif b[2] != base.state:
+                fail('build() returned to a thread before the schema reached the state of a sequential build',
+                     {'thread': t, 'seen': b[2], 'sequential': base.state})
         for (op, xml), got in zip(job, r):
             want = base.result(op, xml)
             if got != want:
@@ -479,6 +502,30 @@ def random_jobs(rng: random.Random, n: int, docs: list[str], k: int) -> list:
 #  forced windows (C18-F1 at call granularity, C18-F2 at statement granularity)
 # =============================================================================================
 DUP = POOL_DOCS[1]
+
+
+def forced_built_window(ctx: Ctx, base: Baseline) -> None:
+    """Thread 0 builds alone up to the moment it publishes `_built = True`; exactly there thread 1 runs
+    `build()` (fast path), looks at the built state and validates documents (substitution-group members
+    included) to the end; then thread 0 resumes.  Whatever the build body does after publishing the flag
+    is invisible to thread 1 -- which is precisely what `build_once` forbids (`_built` => complete maps)."""
+    docs = [POOL_DOCS[-2], POOL_DOCS[-1], POOL_DOCS[1], POOL_DOCS[0]]
+    fired = {'n': 0}
+    sched = Sched(2, random.Random(7), {'first': 0})
+
+    def on_built(t: int) -> None:
+        if t == 0 and fired['n'] == 0:
+            fired['n'] += 1
+            sched.switch(0, forced=True, to=1)
+    case = {'forced': 'B', 'variant': 'after-built-flag', 'docs': docs, 'threads': 2}
+    jobs = [[('iter_errors', d) for d in docs], [('iter_errors', d) for d in docs] + [('decode', docs[0])]]
+    Events.on_built = on_built
+    try:
+        batch: list = []
+        experiment(ctx, batch, base, case, jobs, sched, True, lambda sc, t: (lambda frame, event, arg: None))
+    finally:
+        Events.on_built = None
+    ctx.case(case, fired['n'] > 0, tag='forced:B/after-built-flag' + ('' if fired['n'] else ' (window not reached)'))
 
 
 def forced_window(ctx: Ctx, base: Baseline, drv: Optional[Driver], window: str) -> None:
@@ -600,6 +647,7 @@ def run(ctx: Ctx, driver_ok: bool) -> None:
         # 0. forced windows
         forced_window(ctx, base, drv, 'F1')
         forced_window(ctx, base, drv, 'F2')
+        forced_built_window(ctx, base)
         # 1. controlled schedules
         n_sched = ctx.pick(500, 5000)
         for i in range(n_sched):
@@ -680,7 +728,10 @@ def replay(ctx: Ctx, obj: dict) -> int:
         return 0
     if case.get('forced'):
         base = Baseline(POOL_XSD)
-        forced_window(ctx, base, None, case['forced'])
+        if case['forced'] == 'B':
+            forced_built_window(ctx, base)
+        else:
+            forced_window(ctx, base, None, case['forced'])
     elif 'xsd' in case and 'jobs' in case:
         base = Baseline(case['xsd'])
         docs = case['docs']
